@@ -6,6 +6,8 @@
 //	plus <l> <e> <d>    => same for a = l@d, b = l+e@d
 //	pop3 <a>            => <iptab> then per mode: <mailbox of NewRecipient a> <name the POP3 server uses for USER a>
 //	ip <lit>            => <ParseIP(lit)!=nil> <ParseIP(ToLower(lit))!=nil> <every byte is a hex digit, '.' or ':'>
+//	lower <s>           => <strings.ToLower(s)>
+//	valid <d>           => <iptab> <ValidateDomainPart(d)>
 //	live <mode> <a>     => (see live.go) RCPT on a real SMTP session, then lookups by address through the manager,
 //	                       the REST API and POP3
 //
@@ -169,6 +171,13 @@ func exec(kind string, in []string) []string {
 			}
 		}
 		return []string{vh.B(net.ParseIP(lit) != nil), vh.B(net.ParseIP(strings.ToLower(lit)) != nil), vh.B(alpha)}
+	case "lower":
+		// strings.ToLower itself: the model's go_tolower claims ASCII lower-casing on ASCII-only strings
+		return []string{vh.HS(strings.ToLower(vh.US(in[0])))}
+	case "valid":
+		// ValidateDomainPart alone (ranges over runes; the model over bytes), any byte string
+		d := vh.US(in[0])
+		return []string{ipTable(d), vh.B(policy.ValidateDomainPart(d))}
 	case "live":
 		return execLive(in)
 	}
